@@ -21,7 +21,11 @@ warnings filters other than the RuntimeWarning filter utils.db installs on the p
 before (monitor ambient.unchanged): a result may depend on its arguments, gv and the numpy RNG only. A fifth repeats it with another slot count gv.N in force (monitor
 forms.gvN) and with user-defined gv attributes named like the function's own parameters: N only sizes the convenience axes
 gv.t / gv.w / gv.dw, which no library function reads, and an omitted argument means its documented default; every closed form of
-the properties is stated without either.
+the properties is stated without either. A sixth is a mistaken call — one scalar argument replaced by an invalid value: whatever it
+raises, the other arguments, gv, the module-level variables of opticomlib and the ambient state must be as before (monitor
+exception.safety, also evaluated after every documented rejection exercised through Ctx.raises). And after every call through
+the layer the arrays of the result must not share memory with an argument buffer or with gv.t / gv.w, nor may the result be one of
+the argument objects (monitor fresh.result).
 The canonical call is always the workload's own call, through the property's monitors; the twin goes through them too
 (all-keyword twins go to the undecorated function, because the monitors' wrappers call it positionally).
 """
@@ -152,6 +156,41 @@ def _real(fn):
     return fn
 
 
+def _arrays_of(v, depth=0):
+    if isinstance(v, np.ndarray):
+        return [v]
+    if hasattr(v, "signal") and hasattr(v, "noise"):
+        return [x for x in (v.signal, v.noise) if isinstance(x, np.ndarray)]
+    if hasattr(v, "data") and isinstance(getattr(v, "data", None), np.ndarray):
+        return [v.data]
+    if isinstance(v, (tuple, list)) and depth < 2 and len(v) <= 16:
+        out = []
+        for x in v:
+            out += _arrays_of(x, depth + 1)
+        return out
+    return []
+
+
+def _fresh(ctx, qual, r, a, k):
+    """outputs never alias input buffers (nor the axes held by gv): what a call returns may be modified by the caller without
+    changing its arguments or a later result"""
+    outs = _arrays_of(r)
+    if not outs:
+        return
+    ins = []
+    for v in list(a) + list(k.values()):
+        ins += _arrays_of(v)
+    try:
+        import opticomlib.typing as _ty
+        ins += [x for x in (getattr(_ty.gv, "t", None), getattr(_ty.gv, "w", None)) if isinstance(x, np.ndarray)]
+    except Exception:
+        pass
+    bad = any(o.size and i.size and np.may_share_memory(o, i) and np.shares_memory(o, i) for o in outs for i in ins)
+    same = any(r is v for v in list(a) + list(k.values()))
+    with core.monitor_scope():
+        ctx.check("fresh.result", not bad and not same, f"{qual}: " + ("the call returned one of its argument objects" if same else "an array of the result shares memory with an argument buffer (or with gv.t / gv.w)"))
+
+
 def _ambient(ctx, qual, before):
     """every call made by a workload: the function must leave the process-global ambient state as it found it"""
     d = core.ambient_diff(before, core.ambient_snapshot(full="environ" in before))
@@ -185,6 +224,7 @@ def make_layer(ctx, qual, period=PERIOD):
                 finally:
                     _depth[0] -= 1
                 _ambient(ctx, qual, amb0)
+                _fresh(ctx, qual, r, a, k)
                 return r
             st0 = np.random.get_state()
             _depth[0] += 1
@@ -219,8 +259,19 @@ def make_layer(ctx, qual, period=PERIOD):
                     flatkw[name] = v
             allkw = ("*", "positional->keyword", ("allkw",)) if kw_ok and (real_varkw or set(flatkw) <= real_names) and len(a) > 0 else None
             repeat = ("*", "first call->identical second call", ("repeat",))
-            u = int(rng.integers(6))
-            if u == 4:
+            u = int(rng.integers(7))
+            if u == 6:
+                names = [n for n, v in bound.arguments.items() if sig.parameters[n].kind not in (inspect.Parameter.VAR_KEYWORD, inspect.Parameter.VAR_POSITIONAL)
+                         and (isinstance(v, (int, float, str, np.integer, np.floating)) or v is None) and not isinstance(v, (bool, np.bool_))]
+                if names:
+                    pn = names[int(rng.integers(len(names)))]
+                    # type-invalid values only: a numerically invalid one (a negative length or step phase) is outside every
+                    # property's domain and the pinned FIBER does not terminate on some of them
+                    bad = "\u00a7invalid\u00a7"        # (None is a valid "use the default" for many parameters, e.g. PRBS(len=None) at order 31)
+                    pname, lab, spec = (pn, "valid->invalid value", ("misuse", pn, bad))
+                else:
+                    pname, lab, spec = repeat
+            elif u == 4:
                 pname, lab, spec = ("*", "default print options and warnings filter->other print options, -W error::DeprecationWarning", ("ambient",))
             elif u == 5:
                 pname, lab, spec = ("*", "gv as is->another gv.N (t, w, dw rebuilt) and custom gv attributes named like the parameters", ("gvN",))
@@ -233,6 +284,7 @@ def make_layer(ctx, qual, period=PERIOD):
             key = f"{qual}.{pname}:{lab}"
             try:
                 np.random.set_state(st0)
+                core._twin[0] += 1
                 try:
                     if spec[0] == "allkw":
                         with core.monitor_scope(), core.quiet():
@@ -244,6 +296,34 @@ def make_layer(ctx, qual, period=PERIOD):
                                 r2 = orig(*a, **k)
                         finally:
                             _depth[0] -= 1
+                    elif spec[0] == "misuse":
+                        # a mistaken call (one argument replaced by an invalid value): whatever it raises, it must leave the other
+                        # arguments, gv, the library's module-level variables and the ambient state as they were. No verdict on
+                        # whether it raises at all (that is the business of the documented error tables).
+                        b2 = sig.bind(*a, **k)
+                        b2.arguments[spec[1]] = spec[2]
+                        before_args = [core._arg_state(v) for v in b2.args] + [(kk, core._arg_state(v)) for kk, v in sorted(b2.kwargs.items())]
+                        before_lib = core.library_state()
+                        raised = None
+                        _depth[0] += 1
+                        try:
+                            with core.quiet(), core.monitor_scope():
+                                real(*b2.args, **b2.kwargs)
+                        except core.Watchdog:
+                            raise
+                        except Exception as ex:          # noqa: any rejection will do
+                            raised = ex
+                        finally:
+                            _depth[0] -= 1
+                        if raised is not None:
+                            after_args = [core._arg_state(v) for v in b2.args] + [(kk, core._arg_state(v)) for kk, v in sorted(b2.kwargs.items())]
+                            ch = [j for j, (x, y) in enumerate(zip(before_args, after_args)) if x != y]
+                            d = core.library_state_diff(before_lib, core.library_state())
+                            with core.monitor_scope():
+                                ctx.check("exception.safety", not ch and d is None,
+                                          f"{qual}({spec[1]}={spec[2]!r}) raised {type(raised).__name__} and left " + (f"argument(s) {ch} modified" if ch else "") + (f" library state changed: {d}" if d else ""), key=key)
+                                ctx.bin("forms.key", key)
+                        return r
                     elif spec[0] == "gvN":
                         import opticomlib.typing as _ty
                         g = _ty.gv
@@ -353,6 +433,7 @@ def make_layer(ctx, qual, period=PERIOD):
                               f"{'' if spec[0] == 'allkw' else ' ' + repr(spec[2])}): {why}", key=key)
                     ctx.bin("forms.key", key)
             finally:
+                core._twin[0] -= 1
                 np.random.set_state(st1)
             return r
         return wrapper
